@@ -28,6 +28,7 @@ DFails(v, ro) ==
 
 BlockFails(v, blk) ==
   ZsFails(blk.zs) \cup (IF blk.wr.r = "ok" THEN DFails(v, blk.rd) ELSE {})
+  \cup (IF "out" \in DOMAIN blk.rd2 THEN DFails(v, blk.rd2) ELSE {})
 
 HCodecFails(v, e) ==
   CASE e.k = "rt" -> BlockFails(v, e)
